@@ -16,6 +16,7 @@ RULE = (
     "object is compared field by field with the original (observable set, per point x,Q2,y,nf, order keys and their order, "
     "values and errors with array_equal, grid/log/degree/pids/projectilePID, both cards) and through predictions for a random "
     "PDF (bit-identical). Distinct = (chain, has XS, has empty, has None, PTO, TMC); non-trivial = at least one non-zero tensor went through the chain."
+    " After the chain a second output of the same shape (other numbers and card) is written over the same tar / YAML path (file-based API) and must be what is read back."
 )
 ASSUMPTIONS = ["cards are made of plain YAML-representable python types (the card domain the formats document)"]
 CHAINS = ["ttt", "yyy", "tyt", "yty"]
